@@ -7,6 +7,8 @@ drawn options), every directory listing permuted by the seam.  Oracle after
 every successful update+save: M-audit over the files on disk + a fresh
 verification under the seam + M-verify.
 """
+import copy
+
 from .. import gen_update as GU
 from ..common import mk_result
 from ..update_engine import run_history
@@ -18,7 +20,8 @@ RULE = ('each run = generated tree + prior Manifest state (absent/exact/stale si
         'duplicate entries/unregistered valid or invalid Manifests/several Manifests per directory/compressed) '
         '+ 1-4 rounds of (edits; update with drawn hash set, profile, sort, force, watermark/format, whole tree '
         'or sub-directory, library or CLI, sometimes on the loader object of the previous round) with permuted directory listings, permuted '
-        'worker-pool completion order and (half of the runs) short raw reads; after every successful update the '
+        'worker-pool completion order and (half of the runs) short raw reads; in 20% of the multi-round histories the save of an earlier '
+        'round dies at a drawn write-side call (ENOSPC, EDQUOT, EROFS, EIO, EACCES) and the later rounds start from the half-saved state; after every successful update the '
         'on-disk auditor, a fresh gemato verification and the reference verifier are evaluated; non-trivial = at '
         'least one update succeeded on a prior state that was not already exact; distinct = distinct seam '
         'event-log digest')
@@ -28,14 +31,49 @@ ASSUMPTIONS = ['an update that raises makes the premise "completes without error
                'M-audit (sim/model.py) is the reading of "describes the directory exactly"']
 
 
+WRITE_KINDS = ('open.w', 'write', 'unlink', 'truncate', 'rename')
+WRITE_ERRNOS = ['ENOSPC', 'EDQUOT', 'EROFS', 'EIO', 'EACCES']
+
+
 def generate(rng, tier, idx):
     sc = GU.gen_history(rng)
     sc['prop'] = ID
+    if len(sc['rounds']) > 1 and rng.random() < 0.2:
+        # crash point: one save of an earlier round dies at a write-side call (full disk, I/O error), leaving whatever
+        # it had written so far; the following rounds meet that half-saved state as their prior state
+        sc['crash'] = {'pick': rng.getrandbits(30), 'errno': rng.choice(WRITE_ERRNOS)}
     return sc
 
 
 def execute(sc, families=FAMILIES, want_idempotence=False):
-    h = run_history(sc, want_idempotence=want_idempotence)
+    faults = None
+    if sc.get('crash_plan') is not None:
+        faults = [dict(sc['crash_plan'])]
+    elif sc.get('crash'):
+        h0 = run_history(copy.deepcopy(sc), want_idempotence=False, audits=False)
+        ev = h0['seams'][0].events
+        last_round_start = None
+        # write-side calls of all rounds but the last (so that at least one update follows the crash)
+        n_upd = sum(1 for r_ in sc['rounds'] if 'update' in r_)
+        seen = {}
+        sites = []
+        wr = [e for e in h0['seams'][0].write_events]
+        last_op = max([e[0] for e in wr] or [0])
+        for n, kind, rel, outcome in ev:
+            k = (kind, rel)
+            seen[k] = seen.get(k, 0) + 1
+            if kind in WRITE_KINDS:
+                sites.append([kind, rel, seen[k]])
+        # drop the sites that belong to the last writing operation
+        nlast = sum(1 for e in wr if e[0] == last_op and e[1] in WRITE_KINDS)
+        sites = sites[:max(0, len(sites) - nlast)]
+        if sites:
+            s_ = sites[sc['crash']['pick'] % len(sites)]
+            faults = [{'kinds': [s_[0]], 'path': s_[1], 'nth': s_[2], 'errno': sc['crash']['errno']}]
+    h = run_history(sc, want_idempotence=want_idempotence, faults=faults)
+    if faults:
+        fired = sum(f_.get('_fired', 0) for f_ in h['seams'][0].faults)
+        h['counters']['histories_with_a_crashed_save'] = 1 if fired else 0
     vs = [v for v in h['violations'] if v['clause'].split('.')[0] in families]
     c = h['counters']
     nontrivial = c.get('audited_updates', 0) > 0
